@@ -16,7 +16,7 @@ RULE = ("'fwd' cases: (module class, constructor-option assignment, train/eval, 
         "draws; equal output shape); an accepted option that first fails in forward() is a late rejection. 'init' cases: fresh "
         "modules with >= 2^14 weights: 6-sigma mean/variance test, zero biases, unit gains, tag table. 'depth' cases: depth "
         "containers tag all inner parameters and refuse untagged ones. Non-trivial = at least one option differs from its default; "
-        "distinct = (class, option assignment, mode, input rank). The functional form takes every scalar option from the CONSTRUCTOR CALL (the module only lends its parameters), so an option dropped or stored wrongly at construction shows; TransformerDecoder residual_scaling (documented rule with other arguments / the caller's own function); sizes include 1 and square shapes; Conv1d options as 1-tuples are honour-or-reject-at-construction cases.")
+        "distinct = (class, option assignment, mode, input rank). The functional form takes every scalar option from the CONSTRUCTOR CALL (the module only lends its parameters), so an option dropped or stored wrongly at construction shows; TransformerDecoder residual_scaling (documented rule with other arguments / the caller's own function); sizes include 1 and square shapes; Conv1d options as 1-tuples are honour-or-reject-at-construction cases. A quarter of the modules are constructed positionally in the documented order; a third of the cases compare module and functional form again with autograd off.")
 ASSUMPTIONS = ["torch.nn twins are the reference semantics of each option", "6-sigma bounds for the initialisation statistics (false-alarm < 1e-8 per test)"]
 IMPORTS = ["unit_scaling._modules", "unit_scaling.functional", "unit_scaling.parameter", "unit_scaling.docs"]
 REQUIRED_MONITORS = ["functional:bit-compared", "twin:fitted", "init:stat-tests", "tags:checked", "depth:containers-checked", "reject:constructor-raised"]
